@@ -63,6 +63,20 @@ def shapes(tier, seed):
     out += [{"kind": "identity", "pairs": twins[i:i + 60], "twin": True} for i in range(0, len(twins), 60)]
     named = [_named(p) for p in content if "mat" in ops_of(p)]
     out += [{"kind": "content", "progs": named[i:i + 20], "twin": True} for i in range(0, len(named), 20)]
+    # factory calls on trees that were processed before (their transfers / materializations carry payloads): markers rebuilt by
+    # backtracking must not carry a payload over to another upstream tree
+    X = ("leaf", "X")
+    K1 = ("gt", meprogs.A, ("lit", "$k1"))
+    pp = []
+    for pre in (("mat", ("sel", X, K1), "mp"), ("sel", X, K1)):
+        for mid in (("xfer", pre, "it2"), ("proj", ("xfer", pre, "it2"), ("a", "b")), ("mat", ("xfer", pre, "it2"), "mq"),
+                    ("xfer", ("dedup", ("xfer", pre, "it2")), "it1")):
+            for lab in ("sel a>k", "proj a", "sort -b,a", "dedup"):
+                for o in (("it1", True, False, False), ("it1", True, True, False), ("it1", True, False, True), ("it2", True, True, False)):
+                    n = c14._apply(acts, lab, mid, o, 5)
+                    if n is not None:
+                        pp.append(n)
+    out += [{"kind": "processed", "processed": pp[i:i + 12]} for i in range(0, len(pp), 12)]
     return out
 
 
@@ -198,6 +212,9 @@ def identity_problem(before, after, env):
 def run_shape(shape, tier):
     from lsst.daf.relation import ColumnError, EngineError, RelationalAlgebraError
 
+    if shape["kind"] == "processed":
+        from . import c03
+        return c03.run_processed_shape(shape)
     tot = {"paths": 0, "queries": 0, "solver_s": 0.0, "obligations": 0, "discharged": 0, "inconclusive": 0}
     functions = set()
     vios = []
@@ -334,6 +351,9 @@ def concrete_check(kind, base, prog, rows, bind):
 
 def replay(v):
     r = v["replay"]
+    if r.get("processed"):
+        from . import c03
+        return c03.replay(v)
     base = from_jsonable(r["base"]) if r["base"] is not None else None
     prog = from_jsonable(r["prog"])
     if base is not None:
